@@ -121,7 +121,7 @@ func VerifH_C35_lru_history() {
 	sts := []*ClientSessionState{nil, {vers: 1}, {vers: 2}}
 	steps := 4
 	if vr.Tier() == 1 {
-		steps = 6
+		steps = 5 // six steps exceed 400000 paths
 	}
 	capacity := vr.Int("cap", 1, 2)
 	cache := NewLRUClientSessionCache(capacity).(*lruSessionCache)
